@@ -392,7 +392,7 @@ type mon struct{}
 func (mon) Name() string { return "logatomic" }
 
 func (mon) Level(string) (string, string) {
-	return "exploration", "concurrent runs: handlers {nano,text,json} × thresholds (5) × G ∈ {2,4,8,32} goroutines, each running a seeded op list (log at one of 5 levels through the root, a pre-derived child or a child derived on the fly; line sizes tiny … 40 KiB incl. 16 KiB±100 so that pooled buffers are dropped and recycled) into a recording writer that counts overlapping Write calls and dwells inside (in a third of the runs it also reports short writes with an error now and then); offline: multiset of time-stripped payloads == multiset of alone-replay lines, #Write == #enabled records; plain at GOMAXPROCS 2/4/16 and under -race. distinct_nontrivial = distinct (handler, threshold, G, seed) runs in which output of different goroutines alternated at least once"
+	return "exploration", "concurrent runs: handlers {nano,text,json} × thresholds (5) × G ∈ {2,4,8,32} goroutines, each running a seeded op list (log at one of 5 levels through the root, a pre-derived child or a child derived on the fly; line sizes tiny … 40 KiB incl. 16 KiB±100 so that pooled buffers are dropped and recycled) into a recording writer that counts overlapping Write calls and dwells inside (in a third of the runs it also reports short writes with an error now and then); offline: multiset of time-stripped payloads == multiset of alone-replay lines, #Write == #enabled records; plain at GOMAXPROCS 1/2/4/16 and under -race. distinct_nontrivial = distinct (handler, threshold, G, seed) runs in which output of different goroutines alternated at least once"
 }
 
 type shardArgs struct {
@@ -411,7 +411,7 @@ func (mon) Plan(prop, tier string, seed int64) []drv.Shard {
 	if tier == "thorough" {
 		parts, secs = 3, 3600 // three differently seeded shards per setting
 	}
-	for i, gmp := range []string{"2", "4", "16"} {
+	for i, gmp := range []string{"2", "4", "16", "1"} {
 		for p := 0; p < parts; p++ {
 			sfx := ""
 			if parts > 1 {
